@@ -19,6 +19,7 @@ func TestC01(t *testing.T) {
 		"non-trivial = tree has >=1 keyed-list entry and >=1 union/enum/identityref/decimal64/64-bit/binary leaf; distinct by variant+tree+config")
 	rec.Assume("strings are valid UTF-8; union values are canonical (value of member i is not lexically accepted by an earlier member)")
 	th.WitnessAll(rec)
+	witnessF94(rec)
 	rapid.Check(t, func(rt *rapid.T) {
 		v := th.PickVariant(rt, "vtu", "vtw", "vocc", "voco", "vocu", "voccw", "vtu2")
 		o := model.GenOpts{}
